@@ -231,22 +231,148 @@ and ast_path (p : path) : string =
         (xs raw)
   | PathLocal (lv, name, raw) -> Printf.sprintf "PL(%d;%s;%s)" (int_of_n lv) (xs name) (xs raw)
 
-let terr_obs (e : terror) : string =
-  match e with
-  | TESyntax -> "terr:syntax:?:?"
-  | TEMismatchHelper (_, _, l, c) -> Printf.sprintf "terr:mismatch_helper:%d:%d" (int_of_n l) (int_of_n c)
-  | TEMismatchDeco (_, _, l, c) -> Printf.sprintf "terr:mismatch_decorator:%d:%d" (int_of_n l) (int_of_n c)
-  | TEInvalidParam _ -> "terr:invalid_param:-:-"
-
 (* ---------- ops ---------- *)
 let rule_of_name (s : string) : rule option =
   SL.find_opt (fun r -> rule_str r = s) all_rules
 
-let op_tok (rname : string) (src : n list) : string =
-  match rule_of_name rname with
-  | None -> "tokerr-unknown-rule"
-  | Some r -> (
-      match hb_parse (peg_fuel src) r src with
+let bool_tok (t : string) : bool =
+  match t with "0" -> false | "1" -> true | _ -> raise (Bad_case ("bool token: " ^ t))
+
+let int_tok (t : string) : int =
+  try int_of_string t with _ -> raise (Bad_case ("int token: " ^ t))
+
+let failat_tok (t : string) : n option =
+  let k = int_tok t in
+  if k < -1 then raise (Bad_case "failat") else if k < 0 then None else Some (n_of_int k)
+
+let parse_ft (t : string) : (n * n list) list =
+  if t = "-" || t = "" then []
+  else
+    SL.map
+      (fun kv ->
+        match SS.split_on_char '=' kv with
+        | [ b; x ] -> (n_of_zt (ZA.of_string b), str_tok x)
+        | _ -> raise (Bad_case "ft entry"))
+      (SS.split_on_char ',' t)
+
+let parse_op (toks : string list) : op option =
+  match toks with
+  | [ "strict"; b ] -> Some (OStrict (bool_tok b))
+  | [ "dev"; b ] -> Some (ODev (bool_tok b))
+  | [ "pi"; b ] -> Some (OPi (bool_tok b))
+  | [ "esc"; k ] -> Some (OEsc (n_of_int (int_tok k)))
+  | [ "probes" ] -> Some OProbes
+  | [ "hooks"; m ] -> Some (OHooks (n_of_int (int_tok m)))
+  | [ "macros" ] -> Some OMacros
+  | [ "ft"; t ] -> Some (OFt (parse_ft t))
+  | [ "ft" ] -> Some (OFt [])
+  | [ "fw"; p; c ] -> Some (OFw (str_tok p, str_tok c))
+  | [ "fd"; p ] -> Some (OFd (str_tok p))
+  | [ "clone" ] -> Some OClone
+  | [ "sel"; b ] -> Some (OSel (bool_tok b))
+  | [ "unreg"; x ] -> Some (OUnreg (str_tok x))
+  | [ "clear" ] -> Some OClear
+  | [ "regs"; x; y ] -> Some (ORegs (str_tok x, str_tok y))
+  | [ "regp"; x; y ] -> Some (ORegp (str_tok x, str_tok y))
+  | [ "regf"; x; y ] -> Some (ORegf (str_tok x, str_tok y))
+  | [ "regt"; x; m; y ] -> Some (ORegt (str_tok x, n_of_int (int_tok m), str_tok y))
+  | [ "has"; x ] -> Some (OHas (str_tok x))
+  | [ "keys" ] -> Some OKeys
+  | [ "r"; e; x; j; fa ] ->
+      let e = int_tok e in
+      if e < 0 || e > 3 then raise (Bad_case "entry");
+      Some (ORender (n_of_int e, str_tok x, parse_json_tok j, failat_tok fa))
+  | [ "rt"; e; x; j; fa ] ->
+      let e = int_tok e in
+      if e < 4 || e > 7 then raise (Bad_case "entry");
+      Some (ORender (n_of_int e, str_tok x, parse_json_tok j, failat_tok fa))
+  | [ "cmp"; x ] -> Some (OCmp (str_tok x))
+  | [ "tok"; r; x ] -> (
+      match rule_of_name r with
+      | Some ru -> Some (OTok (ru, str_tok x))
+      | None -> raise (Bad_case "rule"))
+  | [ "eschtml"; lo; hi ] -> Some (OEscHtml (n_of_int (int_tok lo), n_of_int (int_tok hi)))
+  | [ "leaf"; "truthy"; iz; j ] -> Some (OLeafTruthy (bool_tok iz, parse_json_tok j))
+  | [ "leaf"; "render"; j ] -> Some (OLeafRender (parse_json_tok j))
+  | [ "leaf"; "esc"; x ] -> Some (OLeafEsc (str_tok x))
+  | [ "leaf"; "cmpop"; o; a; b ] -> Some (OLeafCmp (str_of_utf8 o, parse_json_tok a, parse_json_tok b))
+  | _ -> None
+
+let opt_n (o : n option) : string = match o with Some x -> string_of_int (int_of_n x) | None -> "-"
+
+let terr_payload (e : terror) : string =
+  match e with
+  | TESyntax -> "syntax.?.?"
+  | TEMismatchHelper (_, _, l, c) -> Printf.sprintf "mismatch_helper.%d.%d" (int_of_n l) (int_of_n c)
+  | TEMismatchDeco (_, _, l, c) -> Printf.sprintf "mismatch_decorator.%d.%d" (int_of_n l) (int_of_n c)
+  | TEInvalidParam _ -> "invalid_param.-.-"
+  | TEIo -> "io.-.-"
+
+let terr_obs (e : terror) : string =
+  "terr:" ^ SS.concat ":" (SS.split_on_char '.' (terr_payload e))
+
+let reason_text (r : rreason) : string * string =
+  match r with
+  | RTemplateNotFound s -> ("TemplateNotFound", xs s)
+  | RTemplateError e -> ("TemplateError", terr_payload e)
+  | RTemplateIo -> ("TemplateError", "io.-.-")
+  | RMissingVariable None -> ("MissingVariable", "-")
+  | RMissingVariable (Some p) -> ("MissingVariable", xs p)
+  | RPartialNotFound s -> ("PartialNotFound", xs s)
+  | RHelperNotFound s -> ("HelperNotFound", xs s)
+  | RParamNotFoundForIndex (h, i) -> ("ParamNotFoundForIndex", xs h ^ "." ^ string_of_int (int_of_n i))
+  | RParamNotFoundForName (h, p) -> ("ParamNotFoundForName", xs h ^ "." ^ xs p)
+  | RParamTypeMismatchForName (h, p, t) -> ("ParamTypeMismatchForName", xs h ^ "." ^ xs p ^ "." ^ xs t)
+  | RHashTypeMismatchForName (h, p, t) -> ("HashTypeMismatchForName", xs h ^ "." ^ xs p ^ "." ^ xs t)
+  | RDecoratorNotFound s -> ("DecoratorNotFound", xs s)
+  | RCannotIncludeSelf -> ("CannotIncludeSelf", "-")
+  | RInvalidLoggingLevel s -> ("InvalidLoggingLevel", xs s)
+  | RInvalidParamType s -> ("InvalidParamType", xs s)
+  | RBlockContentRequired -> ("BlockContentRequired", "-")
+  | RInvalidJsonPath s -> ("InvalidJsonPath", xs s)
+  | RInvalidJsonIndex s -> ("InvalidJsonIndex", xs s)
+  | RIOError -> ("IOError", "-")
+  | RUnimplemented -> ("Unimplemented", "-")
+  | ROther s -> ("Other", xs s)
+
+let render_obs_text (uses_writer : bool) (r : render_obs) : string =
+  match r with
+  | RoOk (out, log, nw) ->
+      Printf.sprintf "R:ok:%s:%s:%s" (xs out) (xs log)
+        (if uses_writer then string_of_int (int_of_n nw) else "-")
+  | RoErr (e, acc, log) ->
+      let reason, payload = reason_text e.e_reason in
+      Printf.sprintf "R:err:%s:%s:%s:%s:%s:%s:%s" reason payload
+        (match e.e_tpl with Some t -> xs t | None -> "-")
+        (opt_n e.e_line) (opt_n e.e_col)
+        (if uses_writer then xs acc else "-")
+        (xs log)
+  | RoPanic -> "PANIC"
+  | RoFuel -> "FUEL"
+
+let cres_unit_text (r : unit cres) : string =
+  match r with COk _ -> "ok" | CErr e -> terr_obs e | CPanic _ -> "PANIC" | CFuel -> "FUEL"
+
+let obs_text (o : op) (b : obs) : string =
+  match b with
+  | ObUnit r -> cres_unit_text r
+  | ObBool b -> b01 b
+  | ObKeys l -> "k[" ^ SS.concat "," (SL.map xs l) ^ "]"
+  | ObRender r ->
+      let uses_writer =
+        match o with
+        | ORender (e, _, _, _) -> (match int_of_n e with 2 | 3 | 6 | 7 -> true | _ -> false)
+        | _ -> false
+      in
+      render_obs_text uses_writer r
+  | ObAst r -> (
+      match r with
+      | COk t -> "ast:" ^ ast_template t
+      | CErr e -> terr_obs e
+      | CPanic _ -> "PANIC"
+      | CFuel -> "FUEL")
+  | ObTok r -> (
+      match r with
       | Parsed ts ->
           "tok:"
           ^ SS.concat ","
@@ -255,13 +381,18 @@ let op_tok (rname : string) (src : n list) : string =
                  ts)
       | SyntaxError -> "tokerr"
       | ParseOutOfFuel -> "FUEL")
+  | ObEh h -> "eh:" ^ string_of_int (int_of_n h)
+  | ObStr s -> xs s
+  | ObLeafCmp r -> (
+      match r with
+      | RoOk (out, _, _) -> xs out
+      | _ -> render_obs_text false r)
 
-let op_cmp (src : n list) : string =
-  match compile2 src default_opts with
-  | COk t -> "ast:" ^ ast_template t
-  | CErr e -> terr_obs e
-  | CPanic _ -> "PANIC"
-  | CFuel -> "FUEL"
+let is_observing (o : op) : bool =
+  match o with
+  | ORegs _ | ORegp _ | ORegf _ | ORegt _ | OHas _ | OKeys | ORender _ | OCmp _ | OTok _
+  | OEscHtml _ | OLeafTruthy _ | OLeafRender _ | OLeafEsc _ | OLeafCmp _ -> true
+  | _ -> false
 
 let split_ops (toks : string list) : string list list =
   let rec go cur acc = function
@@ -269,25 +400,45 @@ let split_ops (toks : string list) : string list list =
     | ";" :: r -> go [] (SL.rev cur :: acc) r
     | t :: r -> go (t :: cur) acc r
   in
-  SL.filter (fun l -> l <> []) (go [] [] toks)
+  go [] [] toks
 
-let run_case (line : string) : string =
+(* Unknown ops produce an UNKNOWN-OP observation in place; the model runs the
+   known ops in order. *)
+let run_case_line (line : string) : string =
   match SS.split_on_char ' ' line with
-  | [] | [ "" ] -> ""
+  | [] | [ "" ] -> " BAD-CASE"
   | id :: rest -> (
       try
-        let ops = split_ops rest in
-        let obs =
-          SL.filter_map
-            (fun op ->
-              match op with
-              | [ "tok"; r; s ] -> Some (op_tok r (str_tok s))
-              | [ "cmp"; s ] -> Some (op_cmp (str_tok s))
-              | o :: _ -> Some ("UNKNOWN-OP:" ^ o)
-              | [] -> None)
-            ops
-        in
-        SS.concat " " (id :: obs)
+        if rest = [] then id
+        else begin
+          let groups = split_ops rest in
+          if SL.exists (fun g -> g = [] || SL.mem "" g) groups then raise (Bad_case "empty op");
+          let parsed = SL.map (fun g -> (g, parse_op g)) groups in
+          let ops = SL.filter_map snd parsed in
+          (* sel 1 before clone is a bad case *)
+          let _ =
+            SL.fold_left
+              (fun cloned o ->
+                match o with
+                | OClone -> true
+                | OSel true -> if cloned then cloned else raise (Bad_case "sel before clone")
+                | _ -> cloned)
+              false ops
+          in
+          let observations = run_case ops in
+          let rec zip parsed obs acc =
+            match parsed with
+            | [] -> SL.rev acc
+            | (g, None) :: r -> zip r obs (("UNKNOWN-OP:" ^ SL.hd g) :: acc)
+            | (_, Some o) :: r ->
+                if is_observing o then (
+                  match obs with
+                  | b :: obs' -> zip r obs' (obs_text o b :: acc)
+                  | [] -> raise (Bad_case "obs underflow"))
+                else zip r obs acc
+          in
+          SS.concat " " (id :: zip parsed observations [])
+        end
       with
       | Bad_case _ -> id ^ " BAD-CASE"
       | Stack_overflow -> id ^ " MODEL-STACK-OVERFLOW")
@@ -298,9 +449,13 @@ let () =
   (try
      while true do
        let line = input_line inp in
-       if SS.trim line <> "" then (
-         output_string out (run_case line);
-         output_char out '\n')
+       let line =
+         if SS.length line > 0 && line.[SS.length line - 1] = '\r' then SS.sub line 0 (SS.length line - 1)
+         else line
+       in
+       output_string out (run_case_line line);
+       output_char out '\n';
+       flush out
      done
    with End_of_file -> ());
   close_out out
